@@ -178,6 +178,10 @@ func (rf *c35Ref) classify(k int, op c35Op) (exp, shape string) {
 			return "stream0"
 		case st != nil && st.limbo:
 			return "after-malformed-open"
+		case st != nil && st.mode == "self" && st.state != "closed":
+			// a stream the tracker adopted from the server (accepted EITHER HEADERS) whose handler
+			// finishes at a time the script does not control: every frame on it races with its end
+			return "adopted-self-finishing"
 		case st != nil && st.state == "closed":
 			return "closed-by-" + st.closedBy
 		case st != nil && st.state == "hcr":
@@ -513,8 +517,8 @@ func c35RunCase(r *vkit.Run, cs *c35Case) (out c35Outcome) {
 		}
 		if p := tc.vc.Panicked(); p != "" {
 			atomic.AddInt32(&panicSeen, 1)
-			r.Violation("panic:"+c35PanicShape(lastShape, p), "bfe_http2 serve goroutine panicked ("+p+") after "+lastShape,
-				map[string]interface{}{"ops": cs.Ops[:out.ran], "ops_text": fmt.Sprint(cs.Ops[:out.ran]), "panic": p})
+			r.Violation("panic:"+c35PanicShape(tc.vc.PanicStack(), p), "bfe_http2 serve goroutine panicked ("+p+") after "+lastShape,
+				map[string]interface{}{"ops": cs.Ops[:out.ran], "ops_text": fmt.Sprint(cs.Ops[:out.ran]), "panic": p, "stack": trunc(tc.vc.PanicStack(), 3000)})
 		}
 		// handlers of refused requests must never have run (checked after everything settled)
 		for _, k := range mustNotRun {
@@ -864,7 +868,9 @@ func c35RunCase(r *vkit.Run, cs *c35Case) (out c35Outcome) {
 	return
 }
 
-func c35PanicShape(shape, p string) string {
+// c35PanicShape names a serve panic by its class and the innermost bfe_http2
+// function on the panicking stack (the cause), not by the frame sequence.
+func c35PanicShape(stack, p string) string {
 	cls := "other"
 	switch {
 	case strings.Contains(p, "nil pointer"):
@@ -876,7 +882,22 @@ func c35PanicShape(shape, p string) string {
 	case strings.Contains(p, "out of range"):
 		cls = "index-out-of-range"
 	}
-	return cls + ":" + shape
+	fn := "unknown"
+	past := false
+	for _, l := range strings.Split(stack, "\n") {
+		if strings.HasPrefix(l, "panic(") {
+			past = true
+			continue
+		}
+		if past && strings.HasPrefix(l, "github.com/bfenetworks/bfe/bfe_http2.") && !strings.Contains(l, "notePanic") && !strings.Contains(l, "erif") {
+			fn = strings.TrimPrefix(l, "github.com/bfenetworks/bfe/bfe_http2.")
+			if j := strings.LastIndex(fn, "("); j > 0 {
+				fn = fn[:j]
+			}
+			break
+		}
+	}
+	return cls + ":" + fn
 }
 
 func c35(r *vkit.Run) {
